@@ -72,3 +72,9 @@ package node_manager
 //@   ensures[c32-kept] err == nil && !r0 ==> Store[sk] != None
 //@   ensures[c32-error] err != nil ==> Store == old(Store)
 //@   loop 1 invariant 0 <= num && num <= sum && sum <= it1
+
+//@ func GetCurConOperator
+//@   property C18
+//@   mode abstract
+//@   requires native != nil
+//@   modifies nothing
